@@ -158,6 +158,17 @@ def guard_rules(repo, res, rule="GUARD"):
                 mt = pm3[id(arms[0][0])][0]
                 others = [P.last(v[0]) for a in mt["arms"] for v in A.pat_variants(a["pat"])]
                 ok = others == ["Command"]
+            else:
+                # .. or in the else block of `let Expr::Command { .. } = rhs else { .. }` (how a two-armed match is read, vlib/canon.py)
+                cur = s
+                while id(cur) in pm3:
+                    par, key = pm3[id(cur)]
+                    if par["k"] == "Local" and key == "else":
+                        ok = [P.last(v[0]) for v in A.pat_variants(par["pat"])] == ["Command"]
+                        break
+                    if par["k"] in ("ForLoop", "While", "Loop", "Closure"):
+                        break
+                    cur = par
         res.check(ok, rule, f"{rule}:{fq3}:NonCommandSpecialization", "raised for every shell-specific definition whose right-hand side is not a {{{ }}} command", f3.loc())
     f4 = repo.fn("parse::Shell::from_str")
     ok = False
